@@ -1,3 +1,5 @@
+import KmipGen.CodecSrc
+import KmipModel.ExpectCodec
 import KmipModel.ExpectSkel
 import KmipGen.Skeleton
 /-
@@ -8,4 +10,17 @@ namespace Kmip
 theorem GenC09_serve_skeleton : KmipGen.skel_Server_serve = ExpectSkel.skel_Server_serve := by decide
 theorem GenC09_handleBatch_skeleton : KmipGen.skel_Server_handleBatch = ExpectSkel.skel_Server_handleBatch := by decide
 theorem GenC09_handleWrapped_skeleton : KmipGen.skel_Server_handleWrapped = ExpectSkel.skel_Server_handleWrapped := by decide
+end Kmip
+
+namespace Kmip
+
+/-- decoder (decode.go, decode_core.go): the server / client acts on what Decode returns -/
+theorem GenC09_codec_src_dec : KmipGen.codecSrc_dec = ExpectCodec.codecSrc_dec := by decide
+
+/-- struct descriptors (fields.go, types.go) -/
+theorem GenC09_codec_src_desc : KmipGen.codecSrc_desc = ExpectCodec.codecSrc_desc := by decide
+
+/-- dynamic dispatch (BuildFieldValue methods) -/
+theorem GenC09_codec_src_disp : KmipGen.codecSrc_disp = ExpectCodec.codecSrc_disp := by decide
+
 end Kmip
